@@ -24,6 +24,12 @@
 // graph is built); every U-interested node publishes one message on U in every batch, and the check line carries the same
 // observations for U under "u" (judged per topic by NetTrace).
 //
+// Backpressure: with "queue":q (small per-peer outbound queues) and "bulk":true (everybody subscribes to the bulk topic "B"
+// first), a churn operation may carry "burst":k: node a publishes k messages of 256 KiB on B and, in the same virtual
+// instant, performs the operation, so that the announcement of its new interest meets full outbound queues (the op line
+// logs how many of a's peer queues were full, from the node's own snapshot, and how many announcements were dropped and
+// left to announceRetry). Bulk messages are never judged; the measured batches come after the usual settle period.
+//
 // Long-running histories: {"op":"stream","a":count,"b":payload bytes,"ps":[publishers],"gap":g} publishes one message per
 // heartbeat (400 ms after it) for `count` heartbeats, publishers in turn, records the nodes' mesh state at every publish
 // instant and every GRAFT/PRUNE event, waits the quiescence period and emits ONE check line ("stream":true). NetTrace then
@@ -65,6 +71,8 @@ type M = map[string]any
 const (
 	topicName = "T" // the topic under test
 	topicU    = "U" // an unrelated second topic (static roles, traffic in every batch)
+	topicB    = "B" // bulk topic of the backpressure family (bursts of large messages, never judged)
+	burstSize = 256 << 10
 )
 
 type op struct {
@@ -73,6 +81,9 @@ type op struct {
 	B   int    `json:"b"`
 	Gap string `json:"gap"`
 	Ps  []int  `json:"ps"` // stream: publishers, used round-robin
+	// Burst: before this churn operation, IN THE SAME VIRTUAL INSTANT, node A publishes this many 256 KiB messages on the bulk
+	// topic "B", so that its per-peer outbound queues are full when the operation announces the change of interest
+	Burst int `json:"burst"`
 }
 
 type scenario struct {
@@ -87,6 +98,10 @@ type scenario struct {
 	Uroles []string `json:"uroles"`
 	// LateRoles: build the graph FIRST and take the roles afterwards (interest travels in announcements instead of hello packets)
 	LateRoles bool `json:"late_roles"`
+	// Backpressure family: Queue = WithPeerOutboundQueueSize for every node (0 = library default); Bulk = every node first
+	// subscribes to the bulk topic "B" (never judged), on which the bursts of the operations are published
+	Queue int  `json:"queue"`
+	Bulk  bool `json:"bulk"`
 }
 
 // smallParams: the scaled-down gossipsub parameters of spec/net (D=2, Dlo=1, Dhi=3, Dlazy=2).
@@ -118,6 +133,8 @@ type counter struct {
 	msgSent   int
 	log       []string
 	mev       [][2]int64 // GRAFT/PRUNE events: (virtual ms, 1 if on the topic under test else 0)
+	annDrop   int        // announcements (SUB/UNSUB) that met a full outbound queue
+	ctlDrop   int        // GRAFT/PRUNE that met a full outbound queue
 	keep      bool
 	me        string
 	names     *hnet.Names
@@ -234,6 +251,10 @@ func (c *counter) SendRPC(r *pubsub.RPC, p peer.ID) {
 }
 func (c *counter) DropRPC(r *pubsub.RPC, p peer.ID) {
 	c.mu.Lock()
+	c.annDrop += len(r.GetSubscriptions())
+	if ctl := r.GetControl(); ctl != nil {
+		c.ctlDrop += len(ctl.GetGraft()) + len(ctl.GetPrune())
+	}
 	c.note("DROP ->%s%s", c.names.P(p), c.shape(r))
 	c.mu.Unlock()
 }
@@ -270,6 +291,7 @@ type node struct {
 	ps   *pubsub.PubSub
 	ts   map[string]*tstate
 	ctr  *counter
+	bulk *pubsub.Topic
 }
 
 func (n *node) st(tn string) *tstate {
@@ -639,6 +661,21 @@ func (w *world) liveDead(tn string) (live, dead, irel []any) {
 	return
 }
 
+// fullQueues: how many of n's per-peer outbound queues are full right now (the node's own snapshot).
+func (w *world) fullQueues(n *node, size int) int {
+	st := n.ps.VerifSnapshot()
+	if st == nil {
+		return 0
+	}
+	full := 0
+	for _, q := range st.Peers {
+		if q.Normal+q.Priority >= size {
+			full++
+		}
+	}
+	return full
+}
+
 // meshEvents: GRAFT/PRUNE events of all nodes since virtual ms `since`: [ms relative to t0, onT].
 func (w *world) meshEvents(since int64) []any {
 	out := []any{}
@@ -687,6 +724,9 @@ func runScenario(t *testing.T, out *vh.Out, idx int, s scenario, debug bool) {
 			w.names.AddPeer(h.ID(), name)
 			n := &node{idx: i + 1, kind: s.Kinds[i], h: h, ts: map[string]*tstate{}, ctr: &counter{keep: debug, me: name, names: w.names}}
 			opts := []pubsub.Option{pubsub.WithRawTracer(n.ctr)}
+			if s.Queue > 0 {
+				opts = append(opts, pubsub.WithPeerOutboundQueueSize(s.Queue))
+			}
 			var err error
 			switch n.kind {
 			case "flood":
@@ -723,6 +763,26 @@ func runScenario(t *testing.T, out *vh.Out, idx int, s scenario, debug bool) {
 				t.Fatalf("unknown role %q", r)
 			}
 		}
+		if s.Bulk { // everybody listens on the bulk topic (drained, never judged)
+			for _, n := range w.nodes {
+				tp, err := n.ps.Join(topicB)
+				if err != nil {
+					t.Fatalf("join bulk: %v", err)
+				}
+				sub, err := tp.Subscribe(pubsub.WithBufferSize(64))
+				if err != nil {
+					t.Fatalf("subscribe bulk: %v", err)
+				}
+				n.bulk = tp
+				go func() {
+					for {
+						if _, err := sub.Next(w.ctx); err != nil {
+							return
+						}
+					}
+				}()
+			}
+		}
 		if s.LateRoles {
 			for _, e := range s.Edges {
 				w.connect(e[0], e[1])
@@ -747,7 +807,7 @@ func runScenario(t *testing.T, out *vh.Out, idx int, s scenario, debug bool) {
 		if !w.twoTop {
 			uroles = []string{}
 		}
-		out.Emit(M{"e": "reset", "scn": idx, "n": s.N, "kinds": s.Kinds, "edges": w.wantEdges(), "roles": s.Roles, "uroles": uroles, "late_roles": s.LateRoles, "src": s.Src,
+		out.Emit(M{"e": "reset", "scn": idx, "n": s.N, "kinds": s.Kinds, "edges": w.wantEdges(), "roles": s.Roles, "uroles": uroles, "late_roles": s.LateRoles, "queue": s.Queue, "bulk": s.Bulk, "src": s.Src,
 			"params": M{"name": s.Params, "D": p.D, "Dlo": p.Dlo, "Dhi": p.Dhi, "Dlazy": p.Dlazy, "Dscore": p.Dscore, "Dout": p.Dout,
 				"RandomSubD": pubsub.RandomSubD, "pruneBackoffMs": p.PruneBackoff.Milliseconds(), "unsubBackoffMs": p.UnsubscribeBackoff.Milliseconds(),
 				"historyGossip": p.HistoryGossip, "historyLength": p.HistoryLength, "settleHb": w.settle, "fanoutTTLMs": p.FanoutTTL.Milliseconds(),
@@ -776,6 +836,22 @@ func runScenario(t *testing.T, out *vh.Out, idx int, s scenario, debug bool) {
 						hnet.Settle(100 * time.Millisecond)
 					}
 				}
+				extra := M{}
+				if o.Burst > 0 && s.Bulk && s.Queue > 0 && o.A >= 1 && o.A <= s.N {
+					// the burst and the operation happen in the same virtual instant: the writers cannot drain anything meanwhile
+					a := w.node(o.A)
+					a.ctr.mu.Lock()
+					a.ctr.annDrop, a.ctr.ctlDrop = 0, 0
+					a.ctr.mu.Unlock()
+					big := make([]byte, burstSize)
+					for i := 0; i < o.Burst; i++ {
+						copy(big, fmt.Sprintf("b%d.%d.%d|", o.A, k, i))
+						if err := a.bulk.Publish(w.ctx, append([]byte(nil), big...)); err != nil {
+							t.Fatalf("bulk publish: %v", err)
+						}
+					}
+					extra["burst"], extra["qfull"], extra["npeers"] = o.Burst, w.fullQueues(a, s.Queue), len(a.ps.ListPeers(""))
+				}
 				ok := false
 				switch o.Op {
 				case "sub":
@@ -795,9 +871,20 @@ func runScenario(t *testing.T, out *vh.Out, idx int, s scenario, debug bool) {
 				default:
 					t.Fatalf("unknown op %q", o.Op)
 				}
+				if _, b := extra["burst"]; b {
+					a := w.node(o.A)
+					extra["qfull1"] = w.fullQueues(a, s.Queue) // still the same instant: after the announcement was attempted
+					a.ctr.mu.Lock()
+					extra["anndrop"], extra["ctldrop"] = a.ctr.annDrop, a.ctr.ctlDrop
+					a.ctr.mu.Unlock()
+				}
 				hnet.Settle(20 * time.Millisecond)
 				w.lastOp = w.hbNo()
-				out.Emit(M{"e": "op", "scn": idx, "k": k + 1, "op": o.Op, "a": o.A, "b": o.B, "gap": o.Gap, "ok": ok, "t": hnet.NowMs() - w.t0})
+				line := M{"e": "op", "scn": idx, "k": k + 1, "op": o.Op, "a": o.A, "b": o.B, "gap": o.Gap, "ok": ok, "t": hnet.NowMs() - w.t0}
+				for kk, v := range extra {
+					line[kk] = v
+				}
+				out.Emit(line)
 				continue
 			}
 			// ---- a publish batch or a stream: settle, observe, publish, wait, observe
